@@ -210,4 +210,12 @@ HAND = [
             "/p/a_b/types.ts": 'export type User = { id: number; name: string };\n',
         },
     },
+    {
+        "id": "h_case_twins",
+        "files": {
+            "/p/entry.ts": E + 'import { User } from "./types";\nimport { Account } from "./Types";\nparse.buildParsers<{ User: User; Account: Account }>();\n',
+            "/p/types.ts": 'export type User = { id: string };\n',
+            "/p/Types.ts": 'export type Account = { owner: string; balance: number };\n',
+        },
+    },
 ]
